@@ -156,7 +156,11 @@ def ok (d : Disk) : Op → Bool
       (walNumbers d).contains n && (walNumbers d).all (fun x => decide (x ≤ n)) && decide (r.walNo ≤ n) &&
       decide (maxSeq r.entries < b.start)
     | none => false
-  | .createWal n => (walNumbers d).all fun x => decide (x < n)
+  | .createWal n =>
+    -- a new, larger number; or the re-creation of a still empty log of the newest number (the
+    -- creation of a WAL failed half-way under an I/O error and its number is re-used)
+    ((walNumbers d).all fun x => decide (x < n)) ||
+    ((lookup d.wals n == some []) && (walNumbers d).all fun x => decide (x ≤ n))
   | .removeWal n =>
     match recover d with
     | some r => decide (n < r.walNo)
